@@ -2,9 +2,9 @@
 (* F binding for C06: the contract Literals!Post judges what a real run       *)
 (* (ego, or the Go toolchain for the cross-check of the spec itself) printed  *)
 (* for each literal.  io.ndjson, one record per literal:                      *)
-(*   {"lit": [atoms], "obs": [ {"ctx", "st", "ty", "neg", "digs", "exp",      *)
+(*   {"lit": [atoms], "obs": [ {"ctxs", "st", "ty", "neg", "digs", "exp",     *)
 (*                              "neg2", "digs2", "exp2", "bytes"} ... ]}      *)
-(* (identical observations of one literal in one context are merged by the    *)
+(* (ctxs: the contexts in which exactly this was printed; merged by the       *)
 (* harness).  A pair is judged only inside the contract's domain WF.          *)
 (* At the last record the report [n, judged, bad] is printed; bad carries the *)
 (* abstract identity Key of each failing (literal, context).                  *)
@@ -14,12 +14,22 @@ Log == ndJsonDeserialize("io.ndjson")
 
 VARIABLES i, bad, judged
 
+(* Post reads the context only through (ctx = "neg"): judged once for the negated and once for the other contexts *)
 Fails(k) ==
     LET r == Log[k] IN
-    {[idx |-> k, obs |-> j, key |-> Key(r.lit, r.obs[j].ctx)] :
-        j \in {j \in 1..Len(r.obs) : WF(r.lit, r.obs[j].ctx) /\ ~Post(r.lit, r.obs[j].ctx, r.obs[j])}}
+    UNION {LET o   == r.obs[j]
+               cs  == {x \in {o.ctxs[n] : n \in 1..Len(o.ctxs)} : WF(r.lit, x)}
+               pos == cs \ {"neg"}
+               badPos == pos # {} /\ ~Post(r.lit, CHOOSE x \in pos : TRUE, o)
+               badNeg == "neg" \in cs /\ ~Post(r.lit, "neg", o)
+           IN {[idx |-> k, obs |-> j, ctx |-> x, key |-> Key(r.lit, x)] :
+                  x \in (IF badPos THEN pos ELSE {}) \cup (IF badNeg THEN {"neg"} ELSE {})}
+          : j \in 1..Len(r.obs)}
 
-InDomain(k) == LET r == Log[k] IN Cardinality({j \in 1..Len(r.obs) : WF(r.lit, r.obs[j].ctx)})
+InDomain(k) == LET r == Log[k] IN
+    LET Cnt[j \in 0..Len(r.obs)] == IF j = 0 THEN 0
+                                    ELSE Cnt[j - 1] + Cardinality({x \in {r.obs[j].ctxs[n] : n \in 1..Len(r.obs[j].ctxs)} : WF(r.lit, x)})
+    IN Cnt[Len(r.obs)]
 
 Init == i = 1 /\ bad = {} /\ judged = 0
 Next == /\ i <= Len(Log)
